@@ -16,9 +16,6 @@ import random
 import struct
 import sys
 
-if __name__ != "__main__":
-    from ..lib import coqlit as L
-
 IMPORTS = "From LV Require Import Common.Cases Runtime.SortX Runtime.Determinism Runtime.DeterminismExec."
 
 # ----------------------------------------------------------------------------------
